@@ -189,6 +189,10 @@ class WatermarkPoolSink(PoolSink):
   def _OpenImpl(self):
     sink = self._Get()
     self._Release(sink)
+    if self._state == ChannelState.Closed:
+      # The sink we just created was dead on arrival and _Release closed the
+      # pool, so the open failed.
+      raise ServiceClosedError('Unable to open a sink to %s' % self.endpoint)
     self._state = ChannelState.Open
 
   def _FlushCache(self):
